@@ -97,7 +97,7 @@ def adapter_text(case: Case, epath=None) -> str:
     L = []
     A = L.append
     A("    use %s as E;" % (epath or ("self::subject::%s" % E)))
-    A("    use monitor_core::{run_history, Op, Sink, VTable, Val, D};")
+    A("    use monitor_core::{run_history, run_history_ord, Op, Sink, VTable, Val, D};")
     A("    type R = %s;" % d.repr)
     A("    const N: usize = %d;" % n)
     A("    const V: [E; N] = [%s];" % ", ".join("E::%s" % v.ident for v in d.variants))
@@ -156,7 +156,7 @@ def adapter_text(case: Case, epath=None) -> str:
            "run_history(E::%s(V[a], V[b]), ops, cv, sink)" % nm("range"))
     if cfg.has("names"):
         fn("names", "(ops: &[Op], sink: &mut dyn Sink)",
-           "run_history(E::%s(), ops, cs, sink)" % nm("names"))
+           "run_history_ord(E::%s(), ops, cs, sink)" % nm("names"))
     if cfg.has("iter") and cfg.has("names"):
         fn("zip", "(sink: &mut dyn Sink)",
            "for (v, s) in E::%s().zip(E::%s()) { sink.pair(d(v), s) }" % (nm("iter"), nm("names")))
